@@ -40,7 +40,13 @@ def judge_board(ctx, params, r):
         return
     moves, rewards, loose = r["board"]
     log = r["log"]
-    if not log or log[0][0] != "seed" or log[0][1] != seed or any(e[0] == "seed" for e in log[1:]):
+    instrumented = bool(log)
+    if not instrumented:
+        # the module no longer draws through the module-level `random` functions (e.g. a private
+        # random.Random): the draw-level clauses cannot be observed; ranges, force-down and
+        # reproducibility are still checked black-box
+        ctx.count("draws_not_observable")
+    elif log[0][0] != "seed" or log[0][1] != seed or any(e[0] == "seed" for e in log[1:]):
         ctx.violation("seeded-first", inp, {"first_effects": log[:3]})
         return
     for name, mat in (("moves", moves), ("rewards", rewards), ("loose", loose)):
@@ -56,7 +62,7 @@ def judge_board(ctx, params, r):
                 return
             f = loose[i][j]
             u = us[2 * (i * W + j) + 1] if len(us) > 2 * (i * W + j) + 1 else None
-            if f not in (0, 1) or u is None or (f == 1) != (u < pl):
+            if f not in (0, 1) or (instrumented and (u is None or (f == 1) != (u < pl))):
                 ctx.violation("loose-flag", inp, {"tile": [i, j], "flag": f, "draw": u})
                 return
             a = moves[i][j]
@@ -100,6 +106,48 @@ def cmp_board(expect, r):
         if [list(x) for x in a] != r[name]:
             return f"{name} differ"
     return None
+
+
+# ------------------------------------------------------------------------------------------
+# the board that main() actually writes (preamble comment of the generated file)
+# ------------------------------------------------------------------------------------------
+import re as _re
+TILE = _re.compile(r"\[(\d+)\|(<-|<>|->|v)\((X| )\)\]")
+MOVE = {"<-": 0, "<>": 1, "->": 2, "v": 3}
+
+
+def check_main_board(ctx, seed, L, W, pl, m, fd):
+    """run main() with these parameters; the board depicted in the written file must be the board
+    gen_rnd_board gives for exactly these parameters, and honour the requested loose probability"""
+    inp = {"seed": seed, "length": L, "width": W, "prob_loose": pl, "max_reward": m, "force_down": fd, "via": "main()"}
+    ctx.case(inp, True)
+    argv = [f"--seed={seed}", f"--width={W}", f"--length={L}", f"--max_reward={m}", f"--prob_loose_tile={pl!r}"] + (["-f"] if fd else [])
+    r = boards.run_generator(argv)
+    if r["outcome"] != "ok" or len(r["files"]) != 1:
+        ctx.violation("accepted-parameters-run", inp, {"outcome": r["outcome"], "msg": r.get("msg")})
+        return
+    text = list(r["files"].values())[0]
+    rows = [TILE.findall(ln) for ln in text.split("\n") if ln.startswith("#  ")]
+    rows = [x for x in rows if x]
+    if len(rows) != L or any(len(x) != W for x in rows):
+        ctx.violation("dimensions", inp, {"depicted_rows": [len(x) for x in rows]})
+        return
+    rewards = [[int(a) for a, _, _ in row] for row in rows]
+    moves = [[MOVE[b] for _, b, _ in row] for row in rows]
+    loose = [[1 if c == "X" else 0 for _, _, c in row] for row in rows]
+    ref = call_board(seed, L, W, pl, m, fd)
+    if ref["outcome"] == "ok" and (moves, rewards, loose) != tuple([list(map(list, x)) for x in ref["board"]]):
+        ctx.violation("main-writes-the-requested-board", inp, {"written_loose": loose, "requested_loose": ref["board"][2],
+                                                              "written_moves": moves, "requested_moves": ref["board"][0]})
+        return
+    us = [e[1] for e in r["log"] if e[0] == "random"]
+    if us:
+        for i in range(L):
+            for j in range(W):
+                u = us[2 * (i * W + j) + 1]
+                if (loose[i][j] == 1) != (u < pl):
+                    ctx.violation("loose-flag", inp, {"tile": [i, j], "flag": loose[i][j], "draw": u})
+                    return
 
 
 # ------------------------------------------------------------------------------------------
@@ -174,6 +222,10 @@ def run(ctx, model=None):
     for seed in ([5] if ctx.quick() else [5, 6, 7, 8]):
         check_board(ctx, (seed, 30, 30, 0.3, 6, False), model)
         check_board(ctx, (seed, 40, 40, 0.1, 6, True), None)
+    # through main(): probabilities with more than two decimals, close to 0 and to 1
+    for pl_ in ([0.304, 0.004, 0.996, 0.3] if ctx.quick() else [0.304, 0.004, 0.996, 0.3, 0.125, 0.0049, 0.9951, 1e-9, 0.555]):
+        for fd in (False, True):
+            check_main_board(ctx, rng.randrange(100), rng.randint(2, 6), rng.randint(2, 6), pl_, rng.choice([1, 6]), fd)
     # API boundary: random() may return exactly 0.0 or the largest double below 1.0
     for m in (1, 2, 6, 10):
         check_board(ctx, (0, 1, 3, 0.3, m, False), model, force_random=lambda k, r: 0.0, tag="u=0.0")
